@@ -2,7 +2,7 @@
 import ast
 
 from .. import compq, core, pyq
-from ..pysrc import dotted, norm
+from ..pysrc import dotted, norm, flat
 from . import c05, c07, c10, c34
 
 CM = "hy/cmdline.py"
@@ -44,7 +44,7 @@ def check(ctx, src):
     co = src.py(CO)
     ru = co.func("rewriting_unparse")
     ctx.require(ru is not None, "rewriting_unparse not found")
-    t = " ".join(ast.unparse(ru).split())
+    t = flat(ru)
     ctx.check("ast_obj = copy.deepcopy(ast_obj)" in t and t.rstrip().endswith("return true_unparse(ast_obj)"), "H2P-KEYWORDS", f"{CO}|rewriting_unparse|copy", "the wrapper must work on a deep copy and finish with the real unparse", CO, ru.lineno,
               witness="calling hy2py mutates the AST that is then executed", detail="deepcopy; true_unparse")
     ctx.check("if type(node) is ast.Constant: continue" in t, "H2P-KEYWORDS", f"{CO}|rewriting_unparse|constants untouched", "string constants that happen to be keywords must not be rewritten", CO, ru.lineno, witness='the literal "class" is printed as a mangled string', detail="skip Constant")
